@@ -375,7 +375,14 @@ func normKey(fset *token.FileSet, e ast.Expr, from string) string {
 		return ""
 	}
 	r := renameIdent(e, from, "·")
-	return exprStr(fset, r)
+	// the printer may break selectors of substituted sub-expressions ("x. Name"): keys are
+	// compared as text, so normalise the spacing
+	k := exprStr(fset, r)
+	k = strings.ReplaceAll(k, ". ", ".")
+	k = strings.ReplaceAll(k, " .", ".")
+	k = strings.ReplaceAll(k, "( ", "(")
+	k = strings.ReplaceAll(k, " )", ")")
+	return k
 }
 
 func renameIdent(e ast.Expr, from, to string) ast.Expr {
